@@ -332,6 +332,14 @@ impl IndexManager {
                 header_v2.ekey_length
             )));
         }
+        // The segment size is `1 << file_offset_bits` in a 64-bit field: a wider shift
+        // describes no segment size (and `save_index` computes exactly that shift).
+        if header_v2.file_offset_bits >= 64 {
+            return Err(StorageError::Index(format!(
+                "Invalid file offset bits: {}",
+                header_v2.file_offset_bits
+            )));
+        }
 
         // Create legacy header for compatibility
         let header = IndexHeader {
